@@ -199,4 +199,42 @@ func Event9.Trigger$1
   ghost before call WorkerPool.Submit: ndeliv = ndeliv + 1
   ensures r0
 
+-- Trigger as a whole (Event and Event1; the other arities are generated from the same template): EVERY trigger is counted
+-- against the event's limit - also one that finds no hook attached - before anything else is looked at; and the task handed
+-- to a worker pool calls the hook unconditionally (whether the hook is still attached was decided when Trigger ran)
+-- (checked for these statements only - opt only-ghost-asserts)
+func Event.Trigger
+  opt only-ghost-asserts
+  requires e != nil
+  modifies everything
+  ghost local counted Bool
+  ghost at entry: counted = false
+  ghost after call triggerSettings.currentTriggerExceedsMaxTriggerCount: counted = true
+  ghost before call OrderedMap.ForEach: assert counted
+  ghost at return: assert counted
+func Event1.Trigger
+  instantiate T1: int
+  opt only-ghost-asserts
+  requires e != nil
+  modifies everything
+  ghost local counted Bool
+  ghost at entry: counted = false
+  ghost after call triggerSettings.currentTriggerExceedsMaxTriggerCount: counted = true
+  ghost before call OrderedMap.ForEach: assert counted
+  ghost at return: assert counted
+func Event.Trigger$1$1
+  opt only-ghost-asserts
+  modifies everything
+  ghost local called Bool
+  ghost at entry: called = false
+  ghost after call Hook#trigger: called = true
+  ghost at return: assert called
+func Event1.Trigger$1$1
+  instantiate T1: int
+  opt only-ghost-asserts
+  modifies everything
+  ghost local called Bool
+  ghost at entry: called = false
+  ghost after call Hook#trigger: called = true
+  ghost at return: assert called
 @*/
